@@ -17,16 +17,20 @@ import (
 
 // DfCase is the replayable unit of the dataflow checks.
 type DfCase struct {
-	Family   string                 `json:"family"`
-	Params   progen.DataflowParams  `json:"params"`
-	Dn       *progen.DisNestParams  `json:"disnest,omitempty"`
-	Kp       *progen.KeyParams      `json:"keys,omitempty"`
-	Schedule Schedule               `json:"schedule"`
-	Program  string                 `json:"program_mro,omitempty"`
+	Family   string                `json:"family"`
+	Params   progen.DataflowParams `json:"params"`
+	Dn       *progen.DisNestParams `json:"disnest,omitempty"`
+	Kp       *progen.KeyParams     `json:"keys,omitempty"`
+	Ff       *progen.FileParams    `json:"files,omitempty"`
+	Schedule Schedule              `json:"schedule"`
+	Program  string                `json:"program_mro,omitempty"`
 }
 
 // Build constructs the program of the case (nil if inexpressible).
 func (c DfCase) Build() *progen.Program {
+	if c.Ff != nil {
+		return progen.FileFlow(*c.Ff)
+	}
 	if c.Dn != nil {
 		return progen.DisNest(*c.Dn)
 	}
@@ -37,6 +41,9 @@ func (c DfCase) Build() *progen.Program {
 }
 
 func (c DfCase) Name() string {
+	if c.Ff != nil {
+		return c.Ff.String()
+	}
 	if c.Dn != nil {
 		return c.Dn.String()
 	}
